@@ -24,6 +24,7 @@ HOOKS = ("requestheaders", "request", "responseheaders", "response", "error")
 #          b part of a body               B piece that completes the body
 # ----------------------------------------------------------------------------------------------------------------
 HOST = b"h.example"
+SURPLUS = b"HTTP/1.1 200 OK\r\nX-Re: 7\r\nServer: peer\r\nContent-Length: 5\r\n\r\nstale"
 
 
 def req_pieces(kind: str, i: int) -> list:
@@ -59,6 +60,8 @@ def resp_pieces(kind: str, i: int, nobody: bool) -> list:
     common = b"X-Re: ?\r\nServer: peer\r\n"  # "?" is replaced by the X-Id the peer read from the request it answers
     if kind == "nobody":
         return [("h", b"HTTP/1.1 204 No Content\r\n" + common + b"\r"), ("H", b"\n")]
+    if kind == "cl_x":  # a complete response, then an unsolicited second one (surplus)
+        return resp_pieces("cl", i, nobody) + [("x", SURPLUS[:9]), ("x", SURPLUS[9:])]
     if kind in ("cl", "bad"):
         extra = b"Transfer-Encoding: chunked\r\n" if kind == "bad" else b""
         head = b"HTTP/1.1 200 OK\r\n" + common + extra + b"Content-Length: %d\r\n" % len(pay)
@@ -355,6 +358,8 @@ SCN_QUICK = (
     (EX("get", "bad"), EX("get", "cl")),
     (EX("post_cl", "cl"), EX("bad", "cl")),
     (EX("post_chunked", "eof"),),
+    (EX("get", "cl_x"), EX("get", "cl")),
+    (EX("post_cl", "cl_x"), EX("post_chunked", "chunked")),
 )
 SCN_THOROUGH = SCN_QUICK + (
     (EX("get", "cl"), EX("head", "chunked"), EX("post_chunked", "cl")),
@@ -365,7 +370,9 @@ SCN_THOROUGH = SCN_QUICK + (
 
 
 def feat_of(scn) -> str:
-    return "blank_line" if any(e["req"] in ("crlf_get", "crlf2_get", "lf3_get") for e in scn) else "plain"
+    if any(e["req"] in ("crlf_get", "crlf2_get", "lf3_get") for e in scn):
+        return "blank_line"
+    return "surplus" if any(e["resp"] == "cl_x" for e in scn) else "plain"
 
 
 def streams_of(scn) -> dict:
@@ -419,7 +426,8 @@ class Check(core.PropertyCheck):
                           "client_data_while_exchange_open", "next_request_from_buffer", "three_client_segments",
                           "three_server_segments", "interim", "server_close", "error_hook",
                           "cut_client_h", "cut_client_H", "cut_client_b", "cut_client_B", "cut_server_h", "cut_server_b",
-                          "cut_client_-+", "cut_server_-+", "cut_client_n", "cut_client_n+", "feat_plain", "feat_blank_line")
+                          "cut_client_-+", "cut_server_-+", "cut_client_n", "cut_client_n+", "feat_plain", "feat_blank_line",
+                          "feat_surplus", "cut_server_x", "cut_server_x+", "cut_server_B")
     REQUIRED_ACTIONS = ("Start", "DeliverC", "DeliverS", "ServerClose", "Finish")
     ASSUMPTIONS = (
         "the outcome of a run is summarised as: per flow the hook sequence, recorded request and response and error flag; "
@@ -427,6 +435,8 @@ class Check(core.PropertyCheck):
         "Error message texts, timestamps and the chunking of forwarded bodies are not part of the outcome",
         "whole-stream delivery of the same byte streams is the reference; the origin-server peer answers a request as soon "
         "as it is complete on the wire (causality) and echoes its X-Id; hooks and connects complete synchronously",
+        "bytes a server sends beyond a response (kind cl_x: an unsolicited second response) reach the proxy before the "
+        "client's next request does; delivered later they are, for any HTTP/1 recipient, the answer to that request",
     )
     PROCS = 1
 
@@ -446,7 +456,7 @@ class Check(core.PropertyCheck):
     def model_runs(self, ctx):
         if ctx.quick:
             return [ctx.model_check(self.MODEL, self.model_constants("quick"), dump=True)]
-        small = ctx.model_check(self.MODEL, self.model_constants("quick") | {"MaxCSeg": 4, "MaxSSeg": 3}, dump=True)
+        small = ctx.model_check(self.MODEL, self.model_constants("quick") | {"MaxCSeg": 4, "MaxSSeg": 2}, dump=True)
         big = ctx.model_check(self.MODEL, self.model_constants("thorough"), dump=False, tag="_big")
         return [small, big]
 
@@ -472,7 +482,7 @@ class Check(core.PropertyCheck):
     def scenarios(self, ctx, models):
         g = models[0].graph
         behs = g.edge_cover(ctx.rng, max_len=30, tail=12)
-        behs += g.random_walks(ctx.rng, 400 if ctx.quick else 2500, 30)
+        behs += g.random_walks(ctx.rng, 150 if ctx.quick else 2500, 30)
         for b in behs:
             if b[-1][0] != "Finish":
                 continue
@@ -486,7 +496,31 @@ class Check(core.PropertyCheck):
         rng = random.Random(ctx.seed + 2)
         fixed = ([SCN_QUICK[0], SCN_QUICK[2], SCN_QUICK[4], SCN_QUICK[6], SCN_QUICK[7], SCN_QUICK[8], SCN_QUICK[9]]
                  if ctx.quick else list(SCN_THOROUGH))
+        for scn in (SCN_QUICK if ctx.quick else SCN_THOROUGH):
+            if feat_of(scn) != "surplus":
+                continue
+            # bytes beyond a response: strictly sequential client (the unsolicited bytes arrive before the next request
+            # is sent, see ClientMay in the model), every segmentation of the first server stream
+            base = streams_of([dict(e) for e in scn])
+            base["unit"] = "byte"
+            c1 = sum(len(b) for (r, b), pc in zip(base["client"], req_pieces(scn[0]["req"], 1)))
+            s1 = sum(len(p[1]) for p in base["responses"][0]["pieces"])
+            big = 1 << 20
+            for p in range(1, s1):
+                yield core.Scenario(dict(base, ops=[["c", c1], ["s", p], ["s", big], ["c", big]]), source="cuts")
+            yield core.Scenario(dict(base, ops=[["c", c1]] + [["s", 1]] * (s1 + 2) + [["c", big]]), source="cuts")
+            for _ in range(30 if ctx.quick else 200):
+                segs, left = [], s1
+                while left > 0:
+                    n = rng.choice([1, 2, 3, 7, 20, 60, 200])
+                    segs.append(["s", n])
+                    left -= n
+                k = rng.randint(1, c1)
+                yield core.Scenario(dict(base, ops=[["c", k], ["c", c1 - k]] * (k < c1) + [["c", c1]] * (k == c1) + segs + [["c", big]]),
+                                    source="cuts")
         for scn in fixed:
+            if feat_of(scn) == "surplus":
+                continue
             base = streams_of([dict(e) for e in scn])
             base["unit"] = "byte"
             clen = sum(len(b) for _, b in base["client"])
